@@ -110,34 +110,9 @@ def fit_adversary(recs, res, exact, clause="OptimalObjective"):
     for c in third:
         byid[c["id"]]["needs_repetitions_above_cap"] = c["id"] not in wit3
     # fourth pass, for witnesses none of the model's own restrictions explains: the same model, same input, with the solver's
-    # presolve switched off.  If the library itself then reports a better objective, the optimum was cut off inside the solver
-    # (recorded on the violation; matched narrowly by the known finding about HiGHS presolve)
-    redo = []
-    for a in adv:
-        r0 = byid[a["id"]]
-        if a["id"] in wit and not r0.get("needs_product_above_k_maxf") and not r0.get("needs_repetitions_above_cap"):
-            x = {k: v for k, v in r0.items() if k in ("cls", "nodes", "edges", "ew", "nw", "mode", "wt", "num", "den", "k", "ign", "cons", "cov",
-                                                      "covlen", "elen", "nlen", "starts", "ends", "escale", "sws", "plr", "plf", "opt", "cons_kind")}
-            for key in ("ign", "cons", "starts", "ends", "escale", "sws", "plr", "plf", "elen", "nlen", "ew", "nw"):
-                if x.get(key) == []:          # defaults filled in by the normaliser: not part of the original call
-                    x.pop(key)
-            if "cons" not in x:
-                x.pop("cov", None)
-                x.pop("cons_kind", None)
-            if x.get("k") == vlib.NONE:
-                x.pop("k")
-                x["k_none"] = True
-            if x.get("covlen", [0, 1])[0] == 0:
-                x.pop("covlen", None)
-            x["sopt"] = {"presolve": "off"}
-            x["id"] = a["id"]
-            redo.append(x)
-    if redo:
-        for o in P.drive(redo):
-            r0 = byid[o["id"]]
-            r0["obj_presolve_off"] = o["obj"]
-            r0["highs_presolve_changes_optimum"] = bool(o["solved"] and o["obj"] != vlib.NONE and r0["obj"] != vlib.NONE and
-                                                         o["obj"] < r0["obj"] - 1)
+    # presolve switched off (see pipeline.presolve_off_probe)
+    P.presolve_off_probe([byid[a["id"]] for a in adv if a["id"] in wit and not byid[a["id"]].get("needs_product_above_k_maxf")
+                          and not byid[a["id"]].get("needs_repetitions_above_cap")])
     for a in adv:
         bad = a["id"] in wit
         res.clause(clause, 1, 1 if bad else 0)
